@@ -1,8 +1,8 @@
 package zv
 
 import (
-	"go/types"
 	"go/token"
+	"go/types"
 	"strings"
 
 	"golang.org/x/tools/go/ssa"
@@ -180,8 +180,11 @@ func checkC04(c *Ctx) {
 		c.Check(len(sites) == 0 && nScanned > 300, "R4.7", "logging path", "synchronous", token.NoPos, "%d functions scanned: no go statement or channel send anywhere in zap's non-test library code except the flush loop start (%v); a log call therefore completes its sink write before it returns", nScanned, sites)
 		c.Check(sawAllowed, "R4.7", "BufferedWriteSyncer initialiser", "canary-go-statement", token.NoPos, "the scanner does see the one known go statement (BufferedWriteSyncer.initialize)")
 	}
-	// R4.8
-	c12Rules(c, "", "R4.8", "", "", "")
+	c.Rule("R4.15", "an observer branch hands out a copy of its entries, or its array after giving it up: entries a tee delivers later never overwrite the ones already taken", 2)
+	c8ObserverHandsOutOwnStorage(c, "R4.15")
+	// R4.8, R4.14
+	c.Rule("R4.14", "every access to the buffered syncer's state - its bufio writer included - holds its mutex (a flush that runs beside a Write makes bufio drop or tear the line being buffered)", 10)
+	c12Rules(c, "R4.14", "R4.8", "", "", "")
 }
 
 // c8Ownership4 is c8Ownership under another rule id.
